@@ -1,6 +1,8 @@
 import SdJwt.Impl.Issuer
 import SdJwt.Lemmas.IssuerL
 import SdJwt.Lemmas.CodecL
+import SdJwt.Lemmas.SdOrderInv
+import SdJwt.Props.C01
 /-!
 # C13 — salts, digests and decoys give no handle for linking or counting claims  (partial)
 
@@ -145,3 +147,38 @@ theorem C13_decoy_vs_digest (c : Codec) (rnd : List UInt8) (s : String)
   by_cases he : utf8 (saltOf rnd) = utf8 s
   · exact .inl (utf8_injective _ _ he).symm
   · exact .inr ⟨_, _, he, h1⟩
+
+
+/-- **the order of the digests in the digest lists of the signed claims carries nothing**: let `T'` be the
+issued tree `T` with every `_sd` list that is visible in the payload permuted in any way (what the
+issuer's final `shuffle_digests` does: `T.sdPermVis T'`). Then `T'` is conformant with pairwise distinct
+digests like `T`; it has the same disclosures, the same hidden nodes, the same original claims and the
+same projection on every selection; and the holder / verifier, given the payload of `T'` and the token's
+disclosures (all of them, in any order), accept and return exactly the original claims — whatever the
+permutation was. So the order is free to be drawn at random, and nothing a recipient computes depends
+on it. -/
+theorem C13_visible_order_irrelevant (env : Env) (T T' : MJ) (strs : List String)
+    (hperm : T.sdPermVis T') (inv : TreeInv T)
+    (hdec : ∀ s ∈ strs, ∃ d, fromBase64 env s = .ok d)
+    (hnd : (strs.map env.hash).Nodup)
+    (hacc : ∀ s ∈ strs, ∀ d, fromBase64 env s = .ok d →
+      DOk T d ∧ ∃ x, (d.digest, x) ∈ T.hiddenE ∧ d.value = x.payload)
+    (hall : ∀ g ∈ T.allMarks, ∃ s ∈ strs, env.hash s = g) :
+    TreeInv T' ∧ T'.discs = T.discs ∧ T'.plain = T.plain ∧ (∀ S, T'.project S = T.project S) ∧
+    ∃ c ps, restoreAll env T'.payload strs = .ok (c, ps) ∧ removeAll c = T.plain := by
+  have inv' := TreeInv.sdPermVis hperm inv
+  have hp : T'.plain = T.plain := MJ.project_sdPermVis _ T T' hperm
+  refine ⟨inv', MJ.discs_sdPermVis T T' hperm, hp, fun S => MJ.project_sdPermVis S T T' hperm, ?_⟩
+  obtain ⟨c, ps, h1, h2⟩ := C01_roundtrip_claims env T' strs inv' hdec hnd
+    (fun s hs d hf => by
+      obtain ⟨ok, x, hx, hv⟩ := hacc s hs d hf
+      exact ⟨DOk.sdPermVis hperm ok, x, by rw [MJ.hiddenE_sdPermVis T T' hperm]; exact hx, hv⟩)
+    (by rw [MJ.allMarks_sdPermVis T T' hperm]; exact hall)
+  exact ⟨c, ps, h1, by rw [h2, hp]⟩
+
+/-- non-vacuity: a tree with two hidden members whose digest list is written in the other order -/
+example : (MJ.obj (.marked "a" "d1" (.leaf (.num 1 0)) (.marked "b" "d2" (.leaf (.num 2 0)) .nil)) (some ["d1", "d2", "decoy"])).sdPermVis
+    (MJ.obj (.marked "a" "d1" (.leaf (.num 1 0)) (.marked "b" "d2" (.leaf (.num 2 0)) .nil)) (some ["decoy", "d2", "d1"])) := by
+  refine ⟨_, _, rfl, ⟨_, rfl, _, rfl, rfl⟩, ?_⟩
+  show List.Perm ["d1", "d2", "decoy"] ["decoy", "d2", "d1"]
+  decide
